@@ -20,7 +20,7 @@ def replay(obj):
         if not c or c.get("id") in seen:
             continue
         seen.add(c.get("id"))
-        b = ("c16x_" if c["kind"] in ("sel", "trace") else "c16x_d") + c16x.SHAPES[(c["mesh"]["shape"], c["mesh"]["dim"])]
+        b = "c16x_info" if c["kind"] == "info" else ("c16x_" if c["kind"] in ("sel", "trace") else "c16x_d") + c16x.SHAPES[(c["mesh"]["shape"], c["mesh"]["dim"])]
         binary, = vlib.build([b])
         r = vlib.run_cases(binary, [c], tmo=120, shards=1)[0]
         print(json.dumps({"case": c.get("id"), "result": r})[:800])
